@@ -130,6 +130,7 @@ harness!(st_remove__s8_4one, st_remove, S8_4ONE);
 harness!(st_remove__s8_8g0, st_remove, S8_8G0);
 harness!(st_remove__s8_8g4, st_remove, S8_8G4);
 harness!(st_remove__s8_e, st_remove, S8_E);
+harness!(st_remove__s8m0_4a, st_remove, S8M0_4A);
 
 // ------------------------------------------------- raw entry: replace_entry_with(..)
 fn st_raw_replace_with(sh: Shape) {
